@@ -407,8 +407,9 @@ class Gen:
         if c < 0.4:
             return ["nary", "prod", [self.int_expr(d - 2) for _ in range(2)]]
         if c < 0.5:
-            return ["bin", r.choice(["floordiv", "rem"]), self.int_expr(d - 1),
-                    r.choice([["int", r.choice([2, 3, -2])], self.int_expr(d - 2)])]
+            # constant non-zero divisors only: numpy integer scalars (array elements) give x // 0 == 0
+            # with a warning where Python ints raise ZeroDivisionError
+            return ["bin", r.choice(["floordiv", "rem"]), self.int_expr(d - 1), ["int", r.choice([2, 3, -2])]]
         if c < 0.6:
             return ["nary", r.choice(["min", "max"]), [self.int_expr(d - 1) for _ in range(r.randint(2, 3))]]
         if c < 0.72:
